@@ -272,7 +272,9 @@ def xy_points(extra=None):
     for x, y in SWEEP_XY:
         p = {"time": [F(1)], "x": [F(x)], "y": [F(y)], "z": [F(5)], "w": [F(-1)], "p": [F(2)], "der(x)": [F(7)],
              "v": [F(x), F(y), F(3), F(-1)], "u": [F(1), F(2), F(4), F(8)], "m": [F(k) for k in range(1, 7)],
-             "der(v)": [F(10), F(20), F(30), F(40)], "n": [F(3)], "b": [F(1 if x > y else 0)]}
+             "der(v)": [F(10), F(20), F(30), F(40)], "n": [F(3)], "b": [F(1 if x > y else 0)], "n2": [F(4)],
+             "ma": [F(1), F(2), F(3), F(4)], "mb": [F(x), F(y), F(7), F(-2)], "mc": [F(0), F(-1), F(5), F(2)],
+             "der(mc)": [F(1), F(0), F(2), F(-2)], "mg": [F(k) for k in range(6)], "mh": [F(2 * k - 3) for k in range(6)]}
         p.update(extra or {})
         pts.append(p)
     return pts
@@ -308,6 +310,12 @@ def sweep_cases():
         decl="Real x, y, z, w; Real v[4]; Real u[4];")
     add("stepped subscripts", "  v[1:2:3] = u[2:2:4];\n  v[1:3:4] = u[1:2];\n  z = sum(u[1:2:4]);\n  v[2:2:4] = 2 * u[1:2:4];",
         decl="Real x, y, z, w; Real v[4]; Real u[4];")
+    add("one-element slices", "  v[2:2] = u[3:3];\n  v[1:n-1] = u[n:n];\n  z = sum(v[4:4]) + sum(u[1:n-1]);\n  v[3:4] = 2 * u[1:2];\n  v[1:1] = u[4:4] * x;",
+        decl="Real x, y, z, w; parameter Integer n = 2; Real v[4]; Real u[4];")
+    add("integer parameter as a value", "  z = n * x + y / n2;\n  for i in 1:n loop\n    v[i] = n * i + u[n];\n  end for;\n  v[4] = n - n2;",
+        decl="Real x, y, z, w; parameter Integer n = 3; parameter Integer n2 = 2; Real v[4]; Real u[4];")
+    add("square matrix equations", "  ma = mb;\n  der(mc) = x * mb - ma;\n  mb = ma .* mb + mc;\n  mg = mh;",
+        decl="Real x, y, z, w; Real ma[2,2]; Real mb[2,2]; Real mc[2,2]; Real mg[2,3]; Real mh[2,3];")
     add("matrix", "  m[1,2] = x;\n  m[2,3] = 2 * y;\n  m[:,1] = u[1:2];\n  z = m[2,1];\n  w = m[1,3];",
         decl="Real x, y, z, w; Real m[2,3]; Real u[4];")
     add("for plain", "  for i in 1:4 loop\n    v[i] = i * x + u[i];\n  end for;", decl="Real x, y, z, w; Real v[4]; Real u[4];")
@@ -327,6 +335,9 @@ def sweep_cases():
     f2 = "function f\n  input Real a;\n  input Real c;\n  output Real r;\n  output Real s;\nalgorithm\n  if a > c then\n    r := 1;\n    s := r + a;\n  elseif a > 0 then\n    r := 2;\n    s := r * c;\n  else\n    r := 3;\n    s := r - c;\n  end if;\nend f;\n"
     add("function if + tuple", "  (z, w) = f(x, y);", funcs=f2)
     add("function truncated outputs", "  z = f(x, y);", funcs=f2)
+    f2b = ("function f\n  input Real a;\n  input Real c;\n  output Real r;\n  output Real s;\nalgorithm\n  if a > c then\n    r := 1;\n    s := a + c;\n"
+           "  elseif a > 0 then\n    s := a * c;\n    r := 2;\n  else\n    s := c - a;\n    r := 3;\n  end if;\nend f;\n")
+    add("function if, branches in different orders", "  (z, w) = f(x, y);", funcs=f2b)
     f3 = "function f\n  input Real a;\n  output Real r;\nprotected\n  Real s;\nalgorithm\n  r := 1;\n  s := a;\n  for k in 1:3 loop\n    s := s + r * k;\n    r := r * 2;\n  end for;\n  r := s + r;\nend f;\n"
     add("function for", "  z = f(x);", funcs=f3)
     f4 = "function g\n  input Real a;\n  output Real r;\nalgorithm\n  r := a * a;\nend g;\n" \
